@@ -69,7 +69,8 @@ def parseNxt (s : String) : List (List V3) :=
 
 def parseMode (s : String) : Mode :=
   { intf := if s.toList.head? == some 'u' then .upperDff else .sNodes,
-    inv := if s.toList.getLast? == some '1' then .first else .full }
+    inv := if s.toList[1]? == some '1' then .first else .full,
+    look := if s.toList[2]? == some 'l' then .last else .role }   -- third letter `l`: `_maps` as found (one dictionary, last position)
 
 def showCols (r : Except Err (List (List V3))) : String :=
   match r with
@@ -165,6 +166,13 @@ def handle (cmd : String) (args : List String) : Option String :=
       else if fn == "loc" then showCols (testsLoc m c f (parseNxt nxt))
       else if fn == "locinit" then showCols (locInit m c f)
       else if fn == "pats" then showPats (extract f)
+      else if fn == "hnd" then
+        -- hypotheses `hnd` of C18.load_pos / pi_po_map (scan rows ++ _pi rows pairwise different) and of unload_pos / po_map
+        -- (_po rows ++ scan rows), and "interface names pairwise different" (then rows = first positions, C18.rows_unique_names)
+        let mp := mapsPure m c f
+        let sr := mp.chains.flatMap (·.map)
+        let nd := fun (l : List Nat) => decide l.Nodup
+        s!"load={nd (sr ++ mp.pi)} unload={nd (mp.po ++ sr)} names={decide (c.intf m.intf).Nodup}"
       else "bad-fn"
   | _ => some "bad-args"
 
